@@ -436,6 +436,7 @@ def validate(tools, irrun, hlslrun, programs, optnames, n_inputs, rng, want_vali
     ir_res = dict(zip(ir_keys, run_models_parallel(irrun, ir_jobs)))
     hl_res = dict(zip(hl_keys, run_models_parallel(hlslrun, hl_jobs)))
     retry = []
+    samples = []
     for (pi, on, epi, k), hr in hl_res.items():
         pr = progs[(pi, on)]
         inp = inputs[(pi, epi, k)]
@@ -446,6 +447,13 @@ def validate(tools, irrun, hlslrun, programs, optnames, n_inputs, rng, want_vali
             retry.append((pi, on, epi, k, verdict, detail))
             continue
         stats[verdict] += 1
+        if verdict == "agree":
+            changed = any(hr["buffers"].get(reg) != inp["buffers"].get(reg) for _gi, reg, _th, _ro in inp["storage"])
+            stats["agree_and_wrote_memory"] = stats.get("agree_and_wrote_memory", 0) + (1 if changed else 0)
+            if changed and len(samples) < 3 and k == 0:
+                samples.append({"program": pr.name, "options": pr.optname, "entry_point": pr.ir["EntryPoints"][epi]["Name"],
+                                "input_globals": json.dumps(inp["ir_globals"])[:300],
+                                "final_buffers_head": {reg: hr["buffers"][reg][:16] for _gi, reg, _th, _ro in inp["storage"][:2]}})
         if verdict == "out_of_fragment":
             oof_reasons[detail[:90]] = oof_reasons.get(detail[:90], 0) + 1
         if verdict in ("mismatch", "hlsl_ub"):
@@ -480,6 +488,7 @@ def validate(tools, irrun, hlslrun, programs, optnames, n_inputs, rng, want_vali
             if verdict in ("mismatch", "hlsl_ub"):
                 records.append(record(pr, programs[pi][1], epi, k, inp, verdict, detail, irr, hr))
     stats["out_of_fragment_reasons"] = dict(sorted(oof_reasons.items(), key=lambda x: -x[1])[:12])
+    stats["samples"] = samples
     return stats, records
 
 
